@@ -326,6 +326,24 @@ def parallel(modname, fname, arglist, procs=None, chunksize=1):
         return pool.map(_call, jobs, chunksize=chunksize)
 
 
+def in_thread(fn, *a):
+    """run fn(*a) in a fresh non-main thread (fresh thread-local state, e.g. the default decimal context)"""
+    import threading
+    box = {}
+
+    def body():
+        try:
+            box["r"] = fn(*a)
+        except BaseException as e:  # noqa
+            box["e"] = e
+    t = threading.Thread(target=body)
+    t.start()
+    t.join()
+    if "e" in box:
+        raise box["e"]
+    return box["r"]
+
+
 # --------------------------------------------------------------------------------------------------
 # finishing: evidence, replay files, output lines
 # --------------------------------------------------------------------------------------------------
@@ -333,6 +351,8 @@ def parallel(modname, fname, arglist, procs=None, chunksize=1):
 def write_replay(pid, v):
     d = os.path.join(OUT, "replays", pid)
     os.makedirs(d, exist_ok=True)
+    if isinstance(v.get("input"), dict):
+        v = dict(v, input=dict((k, x) for k, x in v["input"].items() if not str(k).startswith("_")))
     body = {"property": pid, "check": v["check"], "input": v["input"], "expected": v.get("expected"),
             "observed": v.get("observed")}
     for k in ("key", "note"):
@@ -384,7 +404,12 @@ def finish(part, tier, t0, rule, assumptions, exhaustive=False, required=(), ext
         print("KNOWN-FINDING: property=%s key=%s %s [reproduced %d times, e.g. %s]" % (
             pid, k, known.get((pid, k), ""), n, json.dumps(exi.get("input"), default=repr)[:160]))
     rc = 0
-    for sig, (size, v) in groups.items():
+    shown = collections.Counter()
+    for sig, (size, v) in sorted(groups.items(), key=lambda kv: kv[1][0]):
+        shown[v["check"]] += 1
+        if shown[v["check"]] > 6:      # same check, many signatures: usually one root cause; keep the smallest six
+            rc = 1
+            continue
         path = write_replay(pid, v)
         print("VIOLATION property=%s replay=%s" % (pid, path))
         print("  check=%s input=%s" % (v["check"], json.dumps(v["input"], default=repr)[:300]))
@@ -392,8 +417,8 @@ def finish(part, tier, t0, rule, assumptions, exhaustive=False, required=(), ext
         print("  observed=%s" % json.dumps(v.get("observed"), default=repr)[:300])
         rc = 1
     if part.harness_errors and rc == 0:
-        for h in part.harness_errors[:10]:
-            print("HARNESS-ERROR property=%s %s" % (pid, h[:3000]), file=sys.stderr)
+        for h in sorted(set(part.harness_errors))[:3]:
+            print("HARNESS-ERROR property=%s %s" % (pid, h[:1500]), file=sys.stderr)
         rc = 2
     print("%s %s seed=%d: %d cases, %d distinct non-trivial, %d violation group(s), %.1fs -> exit %d" % (
         pid, tier, SEED, part.evaluations, nontriv, len(groups), wall, rc))
